@@ -5,7 +5,7 @@ use buffer_redux::BufReader;
 use byteorder::{BigEndian, ByteOrder};
 use nom::{
     branch::alt,
-    bytes::streaming::{tag, take, take_until, take_until1},
+    bytes::streaming::{tag, take, take_until},
     character::streaming::{digit1, line_ending, not_line_ending, space0},
     combinator::{complete, map, map_res, opt, success, value},
     multi::many0,
@@ -191,15 +191,19 @@ fn armor_header_line(i: &[u8]) -> IResult<&[u8], BlockType> {
 
 /// Parses a single key value pair, for the header.
 fn key_value_pair(i: &[u8]) -> IResult<&[u8], (&str, &str)> {
-    let (i, key) = map_res(
-        alt((
-            complete(take_until1(":\r\n")),
-            complete(take_until1(":\n")),
-            complete(take_until1(": ")),
-        )),
-        str::from_utf8,
-    )
-    .parse(i)?;
+    // The key ends at the first ": " of this line, or at a ":" that ends the line (empty value).
+    // Only the current line is inspected: a ":" at the end of a value or of a later line is not
+    // a key separator.
+    let (_, line) = not_line_ending(i)?;
+    let key_len = line
+        .windows(2)
+        .position(|w| w == b": ")
+        .or_else(|| line.strip_suffix(b":").map(|key| key.len()))
+        .filter(|len| *len > 0)
+        .ok_or_else(|| {
+            nom::Err::Error(nom::error::Error::new(i, nom::error::ErrorKind::TakeUntil))
+        })?;
+    let (i, key) = map_res(take(key_len), str::from_utf8).parse(i)?;
 
     // consume the ":"
     let (i, _) = tag(":")(i)?;
